@@ -6,6 +6,7 @@ mod json;
 mod num;
 mod path;
 mod prog;
+mod regalloc;
 
 fn main() {
     let args: Vec<String> = std::env::args().collect();
@@ -16,6 +17,8 @@ fn main() {
     let f: fn(&str) -> String = match model {
         "path" => path::line,
         "heap" => heap::line,
+        "prog" => prog::line,
+        "regalloc" => regalloc::line,
         "json" => json::line,
         "num" => num::line,
         _ => {
